@@ -9,6 +9,7 @@ open Lean Sqlframe
 deriving instance FromJson, ToJson for Ty
 deriving instance FromJson, ToJson for Frame
 deriving instance FromJson, ToJson for Op
+deriving instance FromJson, ToJson for Call
 
 def tyJson : Ty → Json | .int => "int" | .str => "str"
 
